@@ -25,8 +25,42 @@ const (
 	fSynth    = "C06-msg-names-extracted-variable"
 	fIntMin   = "C06-int-min-literal-rejected"
 	fNullDflt = "C06-null-default-of-list-variable-wrapped"
-	fSingle   = "C06-singleton-default-of-list-field-not-coerced"
+	fSingle   = "C06-default-value-not-list-coerced"
+	fEnumList = "C06-panic-object-in-enum-list"
 )
+
+// objectInEnumList: a list whose innermost type is an enum has (after list coercion) an
+// object element.
+func objectInEnumList(s *ir.Schema, t *ir.Type, v *ir.Value, inEnumList bool, depth int) bool {
+	if v == nil || v.K == ir.VNull || depth > 12 {
+		return false
+	}
+	if t.Elem != nil {
+		enumList := s.KindOf(t.Base()) == ir.KindEnum
+		if v.K != ir.VList {
+			return objectInEnumList(s, t.Elem, v, enumList, depth+1)
+		}
+		for _, x := range v.L {
+			if objectInEnumList(s, t.Elem, x, enumList, depth+1) {
+				return true
+			}
+		}
+		return false
+	}
+	switch s.KindOf(t.Name) {
+	case ir.KindEnum:
+		return inEnumList && v.K == ir.VObj
+	case ir.KindInput:
+		if v.K == ir.VObj {
+			for _, f := range s.Input(t.Name).Fields {
+				if objectInEnumList(s, f.T(), v.Get(f.Name), false, depth+1) {
+					return true
+				}
+			}
+		}
+	}
+	return false
+}
 
 // omittedListVarWithNullDefault: `$v: [T] = null` without a value in the request.
 func (c *Case) omittedListVarWithNullDefault(vars *ir.Value, name string) bool {
@@ -38,11 +72,48 @@ func (c *Case) omittedListVarWithNullDefault(vars *ir.Value, name string) bool {
 	return false
 }
 
-// singletonListDefault: some input field of list type declares a non-list, non-null default.
-func singletonListDefault(s *ir.Schema) bool {
-	for _, in := range s.Inputs {
+// needsListCoercion: the literal has, at some level, a single non-null value where the type
+// is a list.
+func needsListCoercion(s *ir.Schema, t *ir.Type, lit *ir.Value, depth int) bool {
+	if lit == nil || lit.K == ir.VNull || lit.K == ir.VVar || depth > 12 {
+		return false
+	}
+	if t.Elem != nil {
+		if lit.K != ir.VList {
+			return true
+		}
+		for _, x := range lit.L {
+			if needsListCoercion(s, t.Elem, x, depth+1) {
+				return true
+			}
+		}
+		return false
+	}
+	if s.KindOf(t.Name) == ir.KindInput && lit.K == ir.VObj {
+		for _, f := range s.Input(t.Name).Fields {
+			if needsListCoercion(s, f.T(), lit.Get(f.Name), depth+1) {
+				return true
+			}
+		}
+	}
+	return false
+}
+
+// defaultNeedsListCoercion: a default that takes effect somewhere relies on list coercion:
+// an input field default of the schema, or the default of a variable the request omits.
+func (c *Case) defaultNeedsListCoercion(vars *ir.Value) bool {
+	for _, in := range c.Schema.Inputs {
 		for _, f := range in.Fields {
-			if f.HasDefault() && f.T().Elem != nil && !strings.HasPrefix(f.Default, "[") && f.Default != "null" {
+			if f.HasDefault() {
+				if lit, err := ir.ParseLiteral(f.Default, ir.LexOpts{}); err == nil && needsListCoercion(&c.Schema, f.T(), lit, 0) {
+					return true
+				}
+			}
+		}
+	}
+	for _, d := range c.Decls {
+		if d.Default != "" && vars.Get(d.Name) == nil {
+			if lit, err := ir.ParseLiteral(d.Default, ir.LexOpts{}); err == nil && needsListCoercion(&c.Schema, d.T(), lit, 0) {
 				return true
 			}
 		}
@@ -188,6 +259,32 @@ func parseMessagePath(p string) ir.Path {
 	return out
 }
 
+// compatibleModuloListCoercion is Path.Compatible where the message path (which refers to
+// the value after list coercion) may contain [0] segments for list levels that coercion
+// inserted around a single value.
+func compatibleModuloListCoercion(msgPath, offender ir.Path) bool {
+	i, j := 0, 0
+	for i < len(msgPath) && j < len(offender) {
+		a, b := msgPath[i], offender[j]
+		if a == b {
+			i++
+			j++
+			continue
+		}
+		if a.IsIndex && a.Index == 0 && !b.IsIndex {
+			i++
+			continue
+		}
+		return false
+	}
+	for ; i < len(msgPath); i++ { // the rest may only be inserted levels
+		if j >= len(offender) && !(msgPath[i].IsIndex && msgPath[i].Index == 0) {
+			return false
+		}
+	}
+	return true
+}
+
 // sentinels lists the value content of the variables that must never be echoed when
 // content exposure is disabled: string values and number texts of at least 5 characters.
 // Keys are not content.
@@ -307,7 +404,14 @@ func checkCase(c Case, o *pbt.Rec) pbt.Verdict {
 	}
 	res := rig.Execute(c.Query, rawVars, "")
 	if res.Panic != "" {
-		return pbt.Bad("Execute panicked: %s", res.Panic)
+		if strings.Contains(res.Panic, "inject_input_default_values.go") && varsObj != nil {
+			for i := range c.Decls {
+				if objectInEnumList(s, c.Decls[i].T(), varsObj.Get(c.Decls[i].Name), false, 0) {
+					return pbt.BadKnown(fEnumList, "default injection panics on an object inside a list of enums: %s\nquery: %s\nvariables: %s", firstLine(res.Panic), c.Query, c.Vars)
+				}
+			}
+		}
+		return pbt.Bad("Execute panicked: %s\nquery: %s\nvariables: %s", res.Panic, c.Query, c.Vars)
 	}
 	got := len(res.Upstream) > 0
 	if !got && res.Err == nil {
@@ -358,8 +462,8 @@ func checkCase(c Case, o *pbt.Rec) pbt.Verdict {
 		if c.omittedListVarWithNullDefault(varsObj, "") {
 			return pbt.BadKnown(fNullDflt, "omitted list variable with default null is given the value [null]%s", describe())
 		}
-		if res.Err != nil && strings.Contains(res.Err.Error(), `want: "[`) && singletonListDefault(s) {
-			return pbt.BadKnown(fSingle, "a single value declared as default of a list-typed input field is injected without list coercion and then rejected%s", describe())
+		if c.defaultNeedsListCoercion(varsObj) {
+			return pbt.BadKnown(fSingle, "a default value that relies on list coercion (single value for a list) is injected as written and then rejected%s", describe())
 		}
 		if c.omittedDefaultedVarInsideLiteral(varsObj) {
 			return pbt.BadKnown(fVarDflt, "omitted variable with a default, used inside an argument literal, is extracted as null/absent instead of its default and the request is rejected%s", describe())
@@ -407,6 +511,20 @@ func checkCase(c Case, o *pbt.Rec) pbt.Verdict {
 	if shift {
 		return pbt.OK // the validator saw corrupted data; the messages describe that data
 	}
+	// explain attributes a message that does not fit the reference's offenders to a recorded
+	// defect that rewrote the variables before validation.
+	explain := func(named, msg string) (string, string) {
+		listMsg := strings.Contains(msg, `want: "[`) || strings.Contains(msg, "to be an object.")
+		switch {
+		case listMsg && c.defaultNeedsListCoercion(varsObj):
+			return fSingle, "the rejection is about a default value that relies on list coercion and was injected as written"
+		case c.declared(named) && c.omittedListVarWithNullDefault(varsObj, named):
+			return fNullDflt, "the rejection is about an omitted list variable with default null that was given the value [null]"
+		case !c.declared(named) && c.omittedDefaultedVarInsideLiteral(varsObj):
+			return fVarDflt, "the rejection is about the literal extracted around an omitted variable that has a default"
+		}
+		return "", ""
+	}
 	offenders := map[string][]ir.Path{}
 	for _, is := range issues {
 		offenders[is.Path[0].Name] = append(offenders[is.Path[0].Name], is.Path)
@@ -424,11 +542,9 @@ func checkCase(c Case, o *pbt.Rec) pbt.Verdict {
 						return pbt.BadKnown(fSynth, "rejection names $%s, a variable the gateway created while extracting the literal that contains the offender $%s: %q%s", m[1], name, msg, describe())
 					}
 				}
-				if c.omittedDefaultedVarInsideLiteral(varsObj) {
-					return pbt.BadKnown(fVarDflt, "rejection is about $%s, the literal extracted around an omitted variable that has a default: %q%s", m[1], msg, describe())
-				}
-			} else if c.omittedListVarWithNullDefault(varsObj, m[1]) {
-				return pbt.BadKnown(fNullDflt, "rejection is about $%s, an omitted list variable with default null that was given the value [null]: %q%s", m[1], msg, describe())
+			}
+			if id, why := explain(m[1], msg); id != "" {
+				return pbt.BadKnown(id, "%s: %q%s", why, msg, describe())
 			}
 			return pbt.Bad("rejection names $%s, which coerces; offenders: %v; message %q%s", m[1], issues, msg, describe())
 		}
@@ -450,7 +566,10 @@ func checkCase(c Case, o *pbt.Rec) pbt.Verdict {
 		mp := parseMessagePath(pm[1])
 		ok := false
 		for _, op := range offenders[name] {
-			ok = ok || mp.Compatible(op)
+			ok = ok || compatibleModuloListCoercion(mp, op)
+		}
+		if id, why := explain(name, msg); !ok && id != "" {
+			return pbt.BadKnown(id, "%s: %q%s", why, msg, describe())
 		}
 		if !ok {
 			return pbt.Bad("rejection path %q is not on the way to any offender %v; message %q%s", pm[1], offenders[name], msg, describe())
@@ -486,6 +605,13 @@ func baseClass(s *ir.Schema, t *ir.Type) string {
 		return "custom-scalar"
 	}
 	return t.Base()
+}
+
+func firstLine(s string) string {
+	if i := strings.IndexByte(s, '\n'); i >= 0 {
+		return s[:i]
+	}
+	return s
 }
 
 func sortedNames(m map[string][]ir.Path) []string {
